@@ -170,9 +170,14 @@ def main(argv=None):
         logger.remove()
         data = json.loads(Path(args.replay).read_text())
         ok, msg = mod.replay(data)
-        print(("REPRODUCED: " if ok else "NOT REPRODUCED: ") + msg)
+        print(("REPRODUCED: " if ok else "NOT REPRODUCED: ") + " ".join(str(msg).split()))
         return 1 if ok else 0
 
+    try:
+        from loguru import logger
+        logger.remove()
+    except Exception:
+        pass
     t0 = time.time()
     tier = args.tier if args.tier in ("quick", "thorough") else "quick"
     jobs = mod.jobs(tier, seed)
@@ -224,7 +229,8 @@ def main(argv=None):
             try:
                 cp = subprocess.run([PY, "-m", "mdpv.main", prop, "--replay", str(path)], env=base_env(d),
                                     cwd=str(ROOT), capture_output=True, text=True, timeout=1800)
-                rc, out = cp.returncode, cp.stdout.strip().splitlines()[-1:] or [cp.stderr[-400:]]
+                lines = [l for l in cp.stdout.splitlines() if l.startswith(("REPRODUCED:", "NOT REPRODUCED:"))]
+                rc, out = cp.returncode, lines[-1:] or [("replay crashed: " + " ".join(cp.stderr[-400:].split()))]
             except subprocess.TimeoutExpired:
                 rc, out = 2, ["replay timed out"]
             if rc == 1 and out and out[0].startswith("REPRODUCED:"):
